@@ -61,11 +61,18 @@ func (e *Engine) GroundObligations(prop, tier string) ([]*Obligation, []string) 
 	case "C14":
 		g.tags()
 		g.actionTable()
-	case "C01", "C02":
+	case "C01":
 		g.jumpTests()
-	case "C05", "C08":
+	case "C02":
+		g.jumpTests()
+		g.endianValues()
+	case "C05":
 		g.jumpTests()
 		g.bpfOpcodes()
+	case "C08":
+		g.jumpTests()
+		g.bpfOpcodes()
+		g.endianValues()
 	case "C13":
 		g.globalsImmutable(nil)
 	case "C18":
@@ -265,6 +272,64 @@ func (g *groundCtx) tables() {
 		}
 		g.add("arch."+pair[0], "arch."+pair[0]+"#ground.info", "Info literal: SyscallNumbers is its table, SyscallNames is invert of the same table, Name as documented", ok, detail, pos)
 	}
+}
+
+// endianValues: the axiom "nativeEndian is binary.LittleEndian or binary.BigEndian" (what LdHi/LdLo compare it with) is
+// checked on the program text: the variable has no initializer, and every assignment to it in non-test files assigns one
+// of exactly these two values (binary.NativeEndian, for example, is a third dynamic type: both comparisons are false).
+func (g *groundCtx) endianValues() {
+	p := g.e.pkgNamed("seccomp")
+	fn := "seccomp.nativeEndian"
+	if p == nil {
+		g.add(fn, fn+"#ground.values", "package seccomp loaded", false, "missing", token.NoPos)
+		return
+	}
+	obj, _ := p.Types.Scope().Lookup("nativeEndian").(*types.Var)
+	if obj == nil {
+		g.add(fn, fn+"#ground.values", "nativeEndian exists", false, "not found", token.NoPos)
+		return
+	}
+	var bad []string
+	assigns := 0
+	for _, f := range p.Syntax {
+		if strings.HasSuffix(g.e.Fset.Position(f.Pos()).Filename, "_test.go") {
+			continue
+		}
+		ast.Inspect(f, func(n ast.Node) bool {
+			switch x := n.(type) {
+			case *ast.ValueSpec:
+				for i, nm := range x.Names {
+					if p.TypesInfo.Defs[nm] == obj && i < len(x.Values) {
+						bad = append(bad, "declared with the initializer "+exprString(x.Values[i]))
+					}
+				}
+			case *ast.AssignStmt:
+				for i, l := range x.Lhs {
+					id, ok := unparen(l).(*ast.Ident)
+					if !ok || p.TypesInfo.ObjectOf(id) != obj {
+						continue
+					}
+					assigns++
+					if len(x.Rhs) != len(x.Lhs) {
+						bad = append(bad, "assigned from a multi-value expression")
+						continue
+					}
+					v := exprString(x.Rhs[i])
+					if v != "binary.LittleEndian" && v != "binary.BigEndian" {
+						bad = append(bad, "assigned "+v)
+					}
+				}
+			case *ast.UnaryExpr:
+				if x.Op == token.AND {
+					if id, ok := unparen(x.X).(*ast.Ident); ok && p.TypesInfo.ObjectOf(id) == obj {
+						bad = append(bad, "address taken")
+					}
+				}
+			}
+			return true
+		})
+	}
+	g.add(fn, fn+"#ground.values", fmt.Sprintf("nativeEndian has no initializer and is only ever assigned binary.LittleEndian or binary.BigEndian (%d assignments): the premise of axiom endian", assigns), len(bad) == 0 && assigns >= 2, strings.Join(bad, "; "), obj.Pos())
 }
 
 // tablesInjective: in the literal number->name table of each Info, no name carries two numbers, and the Info literal
